@@ -29,6 +29,7 @@ func propC10() Property {
 			{ID: "C10-R6", Desc: "header/trailer tag tables agree with the shipped specs (= C11-R1): what is built parses back into the same section", Min: 9, Run: c11R1},
 			{ID: "C10-R7", Desc: "re-initialising an existing entry truncates it in the table", Min: 1, Run: c10R7},
 			{ID: "C10-R8", Desc: "byte sums fold bytes; setters always re-initialise the entry", Min: 2, Run: c10R8},
+			{ID: "C10-R10", Desc: "the parser splits a field at its first '=' (= C11-R6): a built value containing '=' parses back", Min: 4, Run: c11R6},
 			{ID: "C10-R9", Desc: "the group writer writes every field an entry holds; a group is always stored (= C13-R11)", Min: 2, Run: c13R11},
 		},
 	}
@@ -287,8 +288,14 @@ func c10R1(c *Ctx) {
 					}
 					return false
 				}) {
-					ok = true
 					usedRemove[r.st] = true
+					// the position comes from a scan of the whole list (tags are kept in insertion
+					// order between builds: a position found by an ordered search can miss the key)
+					if !(isAscendingIndex(r.idx) || r.idx.Kind == "next") {
+						c.Violation(name, p.InstrPos(r.st), "remove-scan:"+base, "the position of the key removed from "+base+".tags is "+r.idx.String()+", not the cursor of a scan over the whole list: tags are in insertion order until write() sorts them, so an ordered search can miss the key, the stale tag stays, and a later Set of the same tag emits the field twice")
+						continue
+					}
+					ok = true
 				}
 			}
 			c.Check(ok, name, pos, "delete:"+base+"["+key.String()+"]", "delete paired with removal of the key from tags",
